@@ -11,7 +11,8 @@
    model's specification [intention_allows] on them, so that the evaluator and the
    specification the theorems talk about are themselves tied to the implementation side.
    The regex engine is instantiated by the table of answers Go's regexp gave. *)
-From Verif Require Import Base.Prelude RBAC.Model.
+From Verif Require Import Base.Prelude.
+From Verif Require Import RBAC.Model.
 Local Open Scope string_scope.
 Local Open Scope bool_scope.
 
